@@ -544,6 +544,8 @@ Observe ==
        [] Obs.prop = "C04" -> C04Clauses
        [] Obs.prop = "C07" -> IF Obs.kind = "twoforms" THEN C07PairClauses /\ C07PairRowClauses ELSE PairClauses
        [] Obs.prop = "C06" -> C06Clauses
+       \* C13: the grid written with worker processes is the serial grid, value for value (the driver compares every numeric variable)
+       [] Obs.prop = "C13" -> ClauseAt("ParallelGridIsSerialGrid", Obs.nvars > 50 /\ Obs.ndiff = 0 /\ Obs.nmissing = 0, "pair")
        [] OTHER -> TRUE
   /\ stage' = "observed"
   /\ UNCHANGED <<cfg, conn, rects, ygroups, ints, tid>>
